@@ -332,3 +332,156 @@ theorem release_refused (s : State) (k i : Nat) (hc : s.cur = some i)
     exact ⟨.assertion, by simp [this, hoi]⟩
 
 end Asynkit.GenEqLock
+
+namespace Asynkit.GenEqLock
+open Asynkit Asynkit.Lock Asynkit.PrioGraph
+
+/-! ### `acquire`, first segment: entry → `await fut` / `return True` -/
+
+theorem setWaitingOn_ok (s : State) (i k : Nat) (hw : (s.tasks i).waitingOn = none) :
+    Gen.taskSetWaitingOn s i (some k) = .ok (setWaitingOn s i (some k)) := by
+  simp [Gen.taskSetWaitingOn, waitingOnOf, hw]
+
+theorem clearWaitingOn_ok (s : State) (i k : Nat) (hw : (s.tasks i).waitingOn = some k) :
+    Gen.taskSetWaitingOn s i none = .ok (setWaitingOn s i none) := by
+  simp [Gen.taskSetWaitingOn, waitingOnOf, hw]
+
+theorem newWaiters_noop (s : State) (k : Nat) (h : (s.locks k).waiters = []) : newWaiters s k = s := by
+  have : ({ s.locks k with waiters := [] } : LockSt) = s.locks k := by
+    cases hh : s.locks k; simp_all
+  simp only [newWaiters, this, setLock_self]
+
+theorem appended_prio (s : State) (i k : Nat) (hp : isPrio s i = true) :
+    pqAdd (setWaitingOn s i (some k)) k (s.eff i) i = appended s i k := by
+  have hp' : (s.tasks i).prio.isSome = true := hp
+  apply state_ext <;> try rfl
+  · funext j; by_cases c : j = i <;> simp [pqAdd, setWaitingOn, appended, c, hp']
+  · funext j; by_cases c : j = k
+    · subst c
+      simp only [pqAdd, setWaitingOn, appended, setLock_locks, if_true, setTask_locks, hp', if_true]
+      congr 3
+      rw [eff_setWaitingOn s i i]
+    · simp [pqAdd, setWaitingOn, appended, c]
+
+theorem appended_plain (s : State) (i k : Nat) (hp : isPrio s i = false) (hw : (s.tasks i).waitingOn = none) :
+    pqAdd s k (s.eff i) i = appended s i k := by
+  have hp' : (s.tasks i).prio.isSome = false := hp
+  apply state_ext <;> try rfl
+  · funext j; by_cases c : j = i
+    · subst c; simp [pqAdd, appended, hp']
+      cases h : s.tasks j; simp_all
+    · simp [pqAdd, appended, c]
+  · funext j; by_cases c : j = k
+    · subst c
+      simp only [pqAdd, appended, setLock_locks, if_true, setTask_locks]
+      congr 3
+      rw [eff_setWaitingOn s i i]
+    · simp [pqAdd, appended, c]
+
+theorem plain_appended {s : State} (h : PlainHoldNothing s) (i k : Nat) : PlainHoldNothing (appended s i k) := by
+  intro j hj
+  by_cases c : j = i
+  · subst c; simp [appended] at hj ⊢; exact h j hj
+  · simp [appended, c] at hj ⊢; exact h j hj
+
+theorem lockOwning_appended (s : State) (i k : Nat) : lockOwning (appended s i k) k = (s.locks k).owner := by
+  simp [lockOwning, appended]
+
+theorem isPrio_appended (s : State) (i k o : Nat) : isPrio (appended s i k) o = isPrio s o := by
+  by_cases c : o = i <;> simp [isPrio, appended, c]
+
+theorem propT_plain (s : State) (f o : Nat) (h : isPrio s o = false) : propT s f o = s := by
+  have hn : (s.tasks o).prio.isNone = true := by
+    simp only [isPrio] at h; cases hh : (s.tasks o).prio <;> simp [hh] at h ⊢
+  cases f with
+  | zero => rfl
+  | succ f' => simp [propT, hn]
+
+/-- the model's kernel bookkeeping when `Task.__step` sees the future yielded by `await fut`:
+    the task is blocked, suspended inside `acquire(k)`, and nothing runs -/
+theorem queuedState_def (S : State) (i k : Nat) :
+    queuedState S i k = { S.setTask i { S.tasks i with status := .blocked, pos := .acq k } with cur := none } := rfl
+
+/-- **entry, fast path**: lock free and nobody queued - `acquire` returns without suspending, and the
+    state is the model's (`Ev.acquire`, fast branch) -/
+theorem acquireEntry_fast (s : State) (i k : Nat) (hc : s.cur = some i)
+    (hl : (s.locks k).locked = false) (hw : (s.locks k).waiters = []) (ho : (s.locks k).owner = none) :
+    Gen.lockAcquireEntry (noteOwned s i k) k = .ok (s.doAcquire i k, .returned) := by
+  have hfast : (!(s.locks k).locked && (s.locks k).waiters.isEmpty) = true := by simp [hl, hw]
+  rw [doAcquire_fast s i k hfast]
+  unfold Gen.lockAcquireEntry
+  have h1 : currentTask (noteOwned s i k) = some i := by simp [currentTask, noteOwned, hc]
+  have h2 : lockLocked (noteOwned s i k) k = false := by simp [lockLocked, noteOwned, hl]
+  have h3 : (waitersOf (noteOwned s i k) k).isEmpty = true := by simp [waitersOf, noteOwned, hw]
+  simp only [h1, h2, h3, Bool.false_eq_true, if_false, if_true, takeLock_eq s k i ho]
+
+/-- **entry, queueing path**: the state at the `await fut` is the model's state after `Ev.acquire`
+    (slow branch) up to the kernel's bookkeeping of the suspension, and the locals kept across the
+    `await` are the lock, the task and whether the task is a PriorityTask -/
+theorem acquireEntry_slow (s : State) (hp : PlainHoldNothing s) (i k : Nat) (hc : s.cur = some i)
+    (hslow : ¬ (!(s.locks k).locked && (s.locks k).waiters.isEmpty) = true)
+    (hwo : (s.tasks i).waitingOn = none) :
+    ∃ S, Gen.lockAcquireEntry s k = .ok (S, .suspended k (isPrio s i) k i i i) ∧
+      queuedState S i k = s.doAcquire i k := by
+  rw [doAcquire_slow s i k hslow]
+  refine ⟨walk (appended s i k) (s.locks k).owner, ?_, rfl⟩
+  unfold Gen.lockAcquireEntry
+  have he : (if isPrio s i then Gen.taskEffectivePriority s s.fuel i else 0) = s.eff i := eff_eq_state s hp i
+  have tailP : ∀ o, isPrio s o = true →
+      Gen.taskPropagatePriority (appended s i k).fuel (appended s i k) o k =
+        .ok (walk (appended s i k) (some o)) := by
+    intro o hpo
+    exact (prop_eq (appended s i k).fuel _ (plain_appended hp i k)).1 o k (by rw [isPrio_appended]; exact hpo)
+  have tailN : ∀ o, isPrio s o = false → walk (appended s i k) (some o) = appended s i k := by
+    intro o hpo
+    exact propT_plain (appended s i k) (appended s i k).fuel o (by rw [isPrio_appended]; exact hpo)
+  have finish : ∀ b : Bool,
+      (match (match lockOwning (appended s i k) k with | none => none | some v => some v) with
+       | none => (Except.ok (appended s i k, Gen.LockAcquireOut.suspended k b k i i i) :
+           Except (LockErr × State) (State × Gen.LockAcquireOut))
+       | some o =>
+         if isPrio (appended s i k) o = true then
+           match Gen.taskPropagatePriority (appended s i k).fuel (appended s i k) o k with
+           | .error e => .error e
+           | .ok s' => .ok (s', Gen.LockAcquireOut.suspended k b k i i i)
+         else .ok (appended s i k, Gen.LockAcquireOut.suspended k b k i i i)) =
+      .ok (walk (appended s i k) (s.locks k).owner, Gen.LockAcquireOut.suspended k b k i i i) := by
+    intro b
+    rw [lockOwning_appended]
+    cases ho : (s.locks k).owner with
+    | none => rfl
+    | some o =>
+      simp only [isPrio_appended]
+      by_cases hpo : isPrio s o = true
+      · simp only [hpo, if_true, tailP o hpo]
+      · have hpo' : isPrio s o = false := by simpa using hpo
+        simp only [hpo', Bool.false_eq_true, if_false, tailN o hpo']
+  by_cases hpi : isPrio s i = true
+  · have hset := setWaitingOn_ok s i k hwo
+    have happ := appended_prio s i k hpi
+    have he' : Gen.taskEffectivePriority s s.fuel i = s.eff i := by simpa [hpi] using he
+    by_cases hl : (s.locks k).locked = true <;> by_cases hw : (s.locks k).waiters.isEmpty = true
+    all_goals
+      first
+      | (exfalso; apply hslow; simp only [hw, Bool.and_true]; simpa using hl)
+      | skip
+    all_goals
+      (try have hnw := newWaiters_noop s k (List.isEmpty_iff.mp hw))
+      simp only [currentTask, hc, lockLocked, hl, waitersOf, hw, if_true,
+        Bool.false_eq_true, if_false, hpi, he', hset, happ, *]
+    all_goals exact finish true
+  · have hpi' : isPrio s i = false := by simpa using hpi
+    have happ := appended_plain s i k hpi' hwo
+    have he' : (0 : Rat) = s.eff i := by simpa [hpi'] using he
+    by_cases hl : (s.locks k).locked = true <;> by_cases hw : (s.locks k).waiters.isEmpty = true
+    all_goals
+      first
+      | (exfalso; apply hslow; simp only [hw, Bool.and_true]; simpa using hl)
+      | skip
+    all_goals
+      (try have hnw := newWaiters_noop s k (List.isEmpty_iff.mp hw))
+      simp only [currentTask, hc, lockLocked, hl, waitersOf, hw, if_true,
+        Bool.false_eq_true, if_false, hpi', he', happ, *]
+    all_goals exact finish false
+
+end Asynkit.GenEqLock
